@@ -20,7 +20,7 @@ use std::sync::Arc;
 use std::time::{Duration, Instant};
 
 pub const RULE: &str = "scenario = (prior cache state {absent, fresh, stale, unreadable JSON (stale), unreadable JSON (fresh)}, \
-server script {200 complete / chunked complete, 200 cut after k body bytes with FIN or RST, chunked cut mid-chunk, header cut, \
+server script {200 complete / chunked complete, 200 cut after k body bytes with FIN or RST, chunked cut mid-chunk, cut inside the header block, \
 3xx/4xx/5xx with various bodies, stall before headers / mid-body until the client gives up, refused connection}, entry \
 {rink EXPR, rink --fetch-currency}, kill {none, SIGKILL at entry of the N-th traced file syscall, SIGKILL while waiting for \
 body byte k+1}). Non-trivial = distinct scenario that has a prior cache file AND whose refresh was attempted and failed \
@@ -35,6 +35,8 @@ const PLAIN_ANSWER: &str = "0.9144 meter";
 const TRACE_FULL: &str =
     "openat,write,fsync,fdatasync,rename,renameat,renameat2,unlink,unlinkat,close,mkdir,mkdirat,ftruncate,lseek,fcntl";
 const TRACE_REDUCED: &str = "openat,write,fsync,fdatasync,renameat,renameat2,unlinkat,close,mkdirat,ftruncate,lseek,fcntl";
+/// known-finding signature: connection closed inside the headers => cache replaced by an empty file
+pub const SIG_EMPTY_ON_HEADER_CUT: &str = "cache-emptied:connection-closed-inside-headers";
 const WATCHDOG: Duration = Duration::from_secs(40);
 
 // ---------------------------------------------------------------------------
@@ -1094,6 +1096,12 @@ fn execute_in(env: &Env, sc: &Scenario, st: &mut Stats, dir: &Path) -> Result<()
         let f = fin.clone().unwrap_or_default();
         let (sig, what) = if fin.is_none() {
             ("cache-file-removed", "the cache file existed before and is gone now".to_string())
+        } else if f.is_empty() && matches!(sc.server, Server::HeaderCut { .. }) {
+            (
+                SIG_EMPTY_ON_HEADER_CUT,
+                "the connection was closed inside the response headers (after a complete `HTTP/1.1 200 OK` status line); \
+                 libcurl reports success with an empty body and rink installs the 0-byte file as the new cache".to_string(),
+            )
         } else if f.is_empty() {
             ("cache-truncated-to-empty", "the cache file is now empty".to_string())
         } else if f == d.err_text {
@@ -1216,8 +1224,10 @@ fn fixed_servers(ls: u64, lp: u64) -> Vec<Server> {
         Server::StallMidBody { body: Body::Small, k: ls / 3 },
         Server::StallMidBody { body: Body::Padded, k: lp / 3 },
         Server::Refused,
-        Server::HeaderCut { k: 10, rst: false },
-        Server::HeaderCut { k: 10_000, rst: true },
+        Server::HeaderCut { k: 10, rst: false },  // inside the status line
+        Server::HeaderCut { k: 17, rst: false },  // exactly the status line
+        Server::HeaderCut { k: 40, rst: true },   // inside a header field
+        Server::HeaderCut { k: 10_000, rst: true }, // everything but the last byte of the blank line
         Server::ChunkedCutAfter { body: Body::Small, k: 0 },
         Server::ChunkedCutAfter { body: Body::Small, k: 5000 },
         Server::ChunkedCutAfter { body: Body::Padded, k: 100_000 },
@@ -1295,6 +1305,13 @@ fn grid(tier: Tier, ls: u64, lp: u64) -> Vec<Scenario> {
             for k in 0..ls {
                 let e = if k % 2 == 0 { Entry::Fetch } else { Entry::Expr };
                 out.push(Scenario { prior: Prior::Stale, server: Server::CutAfter { body: Body::Small, k, rst: k % 4 >= 2 }, entry: e, kill: Kill::None });
+            }
+            for k in 0..170u64 {
+                for (p, e) in &cs {
+                    if *p == Prior::Stale || k % 8 == 1 {
+                        out.push(Scenario { prior: *p, server: Server::HeaderCut { k, rst: k % 2 == 1 }, entry: *e, kill: Kill::None });
+                    }
+                }
             }
             let mut m = 4096u64;
             while m < lp {
